@@ -20,7 +20,13 @@ fn create_equalizer(
     other_hctl_var_name: Option<&str>,
 ) -> GraphColoredVertices {
     // TODO: merge both branches to not repeat code
-    let mut comparator = graph.mk_unit_colored_vertices().as_bdd().clone();
+    let mut comparator = if other_hctl_var_name.is_some() {
+        // an equalizer between two HCTL variables only renames a variable in a valid set, it must not
+        // be limited by the unit set (which may restrict the domain of just one of the two variables)
+        graph.symbolic_context().mk_constant(true)
+    } else {
+        graph.mk_unit_colored_vertices().as_bdd().clone()
+    };
 
     // HCTL variables are named x, xx, xxx, ...
     let hctl_var_id = hctl_var_name.len() - 1; // len of var codes its index
@@ -66,9 +72,12 @@ fn create_equalizer(
         }
     }
 
+    let comparator = GraphColoredVertices::new(comparator, graph.symbolic_context());
+    if other_hctl_var_name.is_some() {
+        return comparator;
+    }
     // do intersection with the unit bdd (static constraints) to be sure its valid
-    GraphColoredVertices::new(comparator, graph.symbolic_context())
-        .intersect(graph.unit_colored_vertices())
+    comparator.intersect(graph.unit_colored_vertices())
 }
 
 /// Wrapper for creating an `equalizer` between the components of the state (network vars) and
